@@ -3,7 +3,8 @@
 (* hist records, for every step, what txhashset.rs hands to the accumulator *)
 (* (inval, start) and the expected projection (oracle FromScratch).         *)
 EXTENDS Bitmap, TLC, Json
-CONSTANT MaxSteps
+CONSTANTS MaxSteps,   \* steps after Init
+          EmitAt      \* a behaviour is printed when hist reaches this length
 VARIABLE hist
 mcvars == <<uns, size, acc, hist>>
 view == <<uns, size, acc>>
@@ -30,7 +31,7 @@ MCNext == Len(hist) <= MaxSteps /\ (MCApply \/ MCRewind \/ MCReopen)
 MCSpec == MCInit /\ [][MCNext]_mcvars
 
 \* one line per complete behaviour
-Emit == Len(hist) = MaxSteps + 1 => PrintT(<<"BMBEH", ToJson(hist)>>)
+Emit == Len(hist) = EmitAt => PrintT(<<"BMBEH", ToJson(hist)>>)
 \* root term of the chunk MMR for n = 0..5 chunks (entry n+1)
 ASSUME PrintT(<<"BMROOT", ToJson([n \in 1..6 |-> RootTermN(n - 1)])>>)
 ==========================================================================
